@@ -1,5 +1,5 @@
 // C07: TextArchive in-memory API; full observable state after every call.
-use crate::util::*;
+use crate::h_util::*;
 use mila::{Endian, TextArchive, TextArchiveFormat};
 
 fn state(t: &TextArchive) -> String {
